@@ -355,6 +355,73 @@ theorem callback_canonComp : callback Facts.canonComp = cbCanon blComp :=
     rw [blCond_comp]; simp [valOf, blComp, aBaseEqOut, aIsDir, aBaseHidden, aNameEqDot, aNameHasPfx, aPfxHasName,
       aIsBuild, aInExp, aBlEqBase, aBlStrPfx, aBlEqName, aBlSlashPfx])
 
+/-! ### the repaired callback as data -/
+
+/-- The repaired callback written out by hand: every `SkipDir` is guarded by `isDir`, the blacklist test is the
+    whole-component one. -/
+def cbRepaired (cfg : Config) (name : Name) (isDir : Bool) : Bool × Bool :=
+  let b := base name
+  if isDir && (b == plzOut || (['.'].isPrefixOf b && !(name == ['.']))) then (false, true)
+  else if isDir && !cfg.pfx.isPrefixOf name && !name.isPrefixOf cfg.pfx then (false, true)
+  else if cfg.buildNames.contains b && !isDir then (true, cfg.blacklist.any fun d => isDir && blComp name b d)
+  else if isDir && cfg.experimental.contains name then (false, true)
+  else (false, cfg.blacklist.any fun d => isDir && blComp name b d)
+
+theorem condR1 (v : Val) : evalRPN v [1, 0, 2, 3, 100, 101, 102, 101] [] = some (v 1 && (v 0 || (v 2 && !v 3))) := by
+  simp [evalRPN, opNot, opAnd, opOr, opTrue, opFalse]
+theorem condR4 (v : Val) : evalRPN v [1, 7, 101] [] = some (v 1 && v 7) := by
+  simp [evalRPN, opNot, opAnd, opOr, opTrue, opFalse]
+theorem blCond_repaired (v : Val) : evalRPN v Facts.repaired.blCond [] = some (v 1 && (v 8 || v 10 || v 11)) := by
+  simp [Facts.repaired, evalRPN, aIsDir, aBlEqBase, aBlEqName, aBlSlashPfx, opNot, opAnd, opOr, opTrue, opFalse]
+
+theorem runChain_repaired (v : Val) : runChain v Facts.repaired.chain =
+    if v 1 && (v 0 || (v 2 && !v 3)) then some actSkip
+    else if v 1 && !v 4 && !v 5 then some actSkip
+    else if v 6 && !v 1 then some actEmit
+    else if v 1 && v 7 then some actSkip else none := by
+  simp only [Facts.repaired, runChain, aBaseEqOut, aIsDir, aBaseHidden, aNameEqDot, aNameHasPfx,
+    aPfxHasName, aIsBuild, aInExp, opNot, opAnd, opOr, condR1, cond2_canon, cond3_canon, condR4]
+  cases v 0 <;> cases v 1 <;> cases v 2 <;> cases v 3 <;> cases v 4 <;> cases v 5 <;> cases v 6 <;> cases v 7 <;> rfl
+
+theorem callback_repaired : callback Facts.repaired = cbRepaired := by
+  funext cfg name isDir
+  simp only [callback, runChain_repaired, blCond_repaired, cbRepaired]
+  have v0 : valOf Facts.repaired cfg name isDir [] 0 = (base name == plzOut) := by simp [valOf, aBaseEqOut, Facts.repaired]
+  have v1 : ∀ d, valOf Facts.repaired cfg name isDir d 1 = isDir := by intro d; simp [valOf, aBaseEqOut, aIsDir]
+  have v2 : valOf Facts.repaired cfg name isDir [] 2 = ['.'].isPrefixOf (base name) := by
+    simp [valOf, aBaseEqOut, aIsDir, aBaseHidden]
+  have v3 : valOf Facts.repaired cfg name isDir [] 3 = (name == ['.']) := by
+    simp [valOf, aBaseEqOut, aIsDir, aBaseHidden, aNameEqDot]
+  have v4 : valOf Facts.repaired cfg name isDir [] 4 = cfg.pfx.isPrefixOf name := by
+    simp [valOf, aBaseEqOut, aIsDir, aBaseHidden, aNameEqDot, aNameHasPfx]
+  have v5 : valOf Facts.repaired cfg name isDir [] 5 = name.isPrefixOf cfg.pfx := by
+    simp [valOf, aBaseEqOut, aIsDir, aBaseHidden, aNameEqDot, aNameHasPfx, aPfxHasName]
+  have v6 : valOf Facts.repaired cfg name isDir [] 6 = cfg.buildNames.contains (base name) := by
+    simp [valOf, aBaseEqOut, aIsDir, aBaseHidden, aNameEqDot, aNameHasPfx, aPfxHasName, aIsBuild]
+  have v7 : valOf Facts.repaired cfg name isDir [] 7 = cfg.experimental.contains name := by
+    simp [valOf, aBaseEqOut, aIsDir, aBaseHidden, aNameEqDot, aNameHasPfx, aPfxHasName, aIsBuild, aInExp]
+  have vb : ∀ d, (valOf Facts.repaired cfg name isDir d 8 || valOf Facts.repaired cfg name isDir d 10 ||
+      valOf Facts.repaired cfg name isDir d 11) = blComp name (base name) d := by
+    intro d
+    simp [valOf, blComp, aBaseEqOut, aIsDir, aBaseHidden, aNameEqDot, aNameHasPfx, aPfxHasName, aIsBuild, aInExp,
+      aBlEqBase, aBlStrPfx, aBlEqName, aBlSlashPfx]
+  have e : (fun d => some (valOf Facts.repaired cfg name isDir d 1 && (valOf Facts.repaired cfg name isDir d 8 ||
+      valOf Facts.repaired cfg name isDir d 10 || valOf Facts.repaired cfg name isDir d 11)) == some true) =
+      fun d => isDir && blComp name (base name) d := by
+    funext d; rw [v1, vb]; cases (isDir && blComp name (base name) d) <;> rfl
+  rw [v0, v1, v2, v3, v4, v5, v6, v7]
+  simp only [e]
+  generalize (base name == plzOut) = a0
+  generalize List.isPrefixOf ['.'] (base name) = a2
+  generalize (name == ['.']) = a3
+  generalize cfg.pfx.isPrefixOf name = a4
+  generalize name.isPrefixOf cfg.pfx = a5
+  generalize cfg.buildNames.contains (base name) = a6
+  generalize cfg.experimental.contains name = a7
+  generalize cfg.blacklist.any _ = bl
+  cases a0 <;> cases isDir <;> cases a2 <;> cases a3 <;> cases a4 <;> cases a5 <;> cases a6 <;> cases a7 <;>
+    simp [actSkip, actEmit]
+
 /-! ### walk = specification wherever the callback agrees with the specification node by node -/
 
 theorem base_nameOf (p : List Name) (g : goodPath p = true) : base (nameOf p) = lastOr p := by
@@ -581,6 +648,34 @@ theorem agree_fixed (cut : Bool) (cfg : Config) (hc : cfgOK plzOut cfg = true) (
     · simp only [ho, if_false]
       cases cfg.buildNames.contains (lastOr q) <;> cases cfg.experimental.contains (nameOf q) <;> simp
 
+theorem any_false_and {α} (l : List α) (f : α → Bool) : (l.any fun d => false && f d) = false := by
+  induction l <;> simp_all
+
+/-- The repaired callback answers as the specification wants at *every* node -- no benign condition, and no
+    assumption about `plz-out` as a BUILD file name. -/
+theorem agree_repaired (cut : Bool) (cfg : Config) (hp : cfg.pfx = []) (q : List Name) (k : Option Kind)
+    (g : goodPath q = true) : agreeAt (cbRepaired cfg) cut plzOut cfg q k = true := by
+  cases k with
+  | none =>
+    have hdir : cbRepaired cfg (nameOf q) true =
+        (false, lastOr q == plzOut || (!q.isEmpty && hiddenName (lastOr q)) || cfg.experimental.contains (nameOf q) ||
+          cfg.blacklist.any (blComp (nameOf q) (lastOr q))) := by
+      simp only [cbRepaired, base_nameOf q g, isPrefixOf_dot, nameOf_ne_dot q g, hp, List.isPrefixOf, Bool.not_true,
+        Bool.and_false, Bool.false_and, Bool.true_and, Bool.false_eq_true, if_false]
+      cases lastOr q == plzOut <;> cases hiddenName (lastOr q) <;> cases q.isEmpty <;>
+        cases cfg.experimental.contains (nameOf q) <;> simp
+    simp only [agreeAt, beq_iff_eq, hdir, specExcluded]
+    congr 2
+    apply any_congr_of
+    intro d _
+    exact blComp_eq q d g
+  | some k =>
+    have hleaf : cbRepaired cfg (nameOf q) false = (cfg.buildNames.contains (lastOr q), false) := by
+      simp only [cbRepaired, base_nameOf q g, Bool.false_and, Bool.false_eq_true, if_false, Bool.not_false, Bool.and_true,
+        any_false_and]
+      cases cfg.buildNames.contains (lastOr q) <;> simp
+    simp [agreeAt, hleaf]
+
 /-! ### soundness: nothing outside the specification is ever produced (any prefix, with or without the cut) -/
 
 mutual
@@ -762,4 +857,46 @@ theorem wfF_sort : ∀ (f : Forest), Forest.wf f.sort = Forest.wf f
   | .nil => by simp [Forest.sort]
   | .cons n t rest => by simp only [Forest.sort, wf_insert, Forest.wf, wf_sort t, wfF_sort rest]
 end
+
+/-! ### soundness of the repaired callback for any prefix argument -/
+
+theorem cbRepaired_sound_dir (cfg : Config) (q : List Name) (g : goodPath q = true) :
+    (cbRepaired cfg (nameOf q) true).1 = false ∧
+      (specExcluded plzOut cfg q = true → (cbRepaired cfg (nameOf q) true).2 = true) := by
+  have hany : (cfg.blacklist.any fun d => d == lastOr q || compMatch d q) = true →
+      (cfg.blacklist.any fun d => true && blComp (nameOf q) (lastOr q) d) = true := by
+    simp only [List.any_eq_true, Bool.true_and]
+    rintro ⟨d, hd, h⟩; exact ⟨d, hd, by rw [blComp_eq q d g]; exact h⟩
+  simp only [cbRepaired, base_nameOf q g, isPrefixOf_dot, nameOf_ne_dot q g, specExcluded, Bool.not_true,
+    Bool.and_false, Bool.true_and]
+  constructor
+  · split
+    · rfl
+    · split
+      · rfl
+      · simp only [Bool.false_eq_true, if_false]; split <;> rfl
+  · intro h
+    simp only [Bool.or_eq_true] at h
+    split
+    · rfl
+    · rename_i h1
+      split
+      · rfl
+      · simp only [Bool.false_eq_true, if_false]
+        split
+        · rfl
+        · rename_i h3
+          rcases h with ((h | h) | h) | h
+          · simp [h] at h1
+          · simp only [Bool.and_eq_true] at h; simp [h.1, h.2] at h1
+          · exact absurd h h3
+          · exact hany h
+
+theorem cbRepaired_sound_leaf (cfg : Config) (q : List Name) (g : goodPath q = true)
+    (h : (cbRepaired cfg (nameOf q) false).1 = true) : cfg.buildNames.contains (lastOr q) = true := by
+  simp only [cbRepaired, base_nameOf q g, Bool.false_and, Bool.false_eq_true, if_false, Bool.not_false, Bool.and_true] at h
+  split at h
+  · assumption
+  · simp at h
+
 end PlzVerif.Walk
